@@ -121,6 +121,27 @@ def check_chunked(c, st):
         return ('chunked:%s%s%s' % (kind if c.get('data_n') is None else 'long-input', ':fill' if kw else '',
                                     ':count' if c['count'] is not None else ''),
                 'chunked(%s, %d, count=%r, %r) = %s, want %s' % (clip(data), size, c['count'], kw, clip(got), clip(want)))
+    if kind in ('iter', 'gen') and c['count'] is not None:
+        # paging through a one-shot iterator: chunked(it, size, count) takes count chunks and leaves the rest in the
+        # iterator for the next page - page after page gives back the input, nothing is pulled out and thrown away
+        src = mk(kind, data)
+        pages, guard = [], 0
+        while guard < len(elems) + 3:
+            guard += 1
+            page = outcome(lambda: iu.chunked(src, size, c['count'], **kw))
+            if page[0] != 'ok' or not page[1]:
+                break
+            pages.extend(page[1])
+            if c['count'] == 0:
+                break
+        st.monitor_evals += 1
+        want_pages = [] if c['count'] == 0 else list(chunks)
+        left = list(src) if c['count'] == 0 else None
+        if pages != want_pages or (left is not None and left != elems):
+            return ('chunked:paging-a-one-shot-iterator', 'chunked(it, %d, count=%r, %r) called until it returns nothing over an '
+                    'iterator of %s gave the chunks %s, the input cut into chunks is %s'
+                    % (size, c['count'], kw, clip(data), clip(pages), clip(want_pages)))
+        st.count('chunked_paging_cases')
     got2 = outcome(lambda: list(iu.chunked_iter(mk(kind, data), size, **kw)))
     st.monitor_evals += 1
     if got2 != ('ok', want_all):
